@@ -742,5 +742,111 @@ func genC09Build() {
 		filter = "(GEqLit \"\" \"\")"
 	}
 	g.def("in_base_filter", "gexp", filter, "ResolveWithBase: a resolved package is already in the base image when this holds for some package of the base image")
+
+	// InstallPackages: `ok, err := a.isInstalledPackage(ARG) … if ok { continue }` - which property of a package makes the installer skip it
+	c09CollectAliases(nil)
+	skipArg := ""
+	if ip := findFunc("pkg/apk/apk/implementation.go", "APK", "InstallPackages"); ip != nil {
+		ast.Inspect(ip, func(n ast.Node) bool {
+			var list []ast.Stmt
+			switch b := n.(type) {
+			case *ast.BlockStmt:
+				list = b.List
+			case *ast.CaseClause:
+				list = b.Body
+			case *ast.CommClause:
+				list = b.Body
+			}
+			if list == nil || skipArg != "" {
+				return true
+			}
+			for i, st := range list {
+				as, ok := st.(*ast.AssignStmt)
+				if !ok || len(as.Rhs) != 1 || len(as.Lhs) < 1 {
+					continue
+				}
+				c, ok := as.Rhs[0].(*ast.CallExpr)
+				if !ok || len(c.Args) != 1 {
+					continue
+				}
+				if se, ok := c.Fun.(*ast.SelectorExpr); !ok || se.Sel.Name != "isInstalledPackage" {
+					continue
+				}
+				flag := exprText(as.Lhs[0])
+				for _, later := range list[i+1:] {
+					if is, ok := later.(*ast.IfStmt); ok && exprText(is.Cond) == flag && len(is.Body.List) == 1 {
+						if br, ok := is.Body.List[0].(*ast.BranchStmt); ok && br.Tok == token.CONTINUE {
+							if a, ok := c09Atom(c.Args[0], nil); ok {
+								skipArg = a
+							}
+						}
+					}
+				}
+			}
+			return true
+		})
+	}
+	if skipArg == "" {
+		fail("pkg/apk/apk/implementation.go: InstallPackages: no `ok := isInstalledPackage(x.F) … if ok { continue }`")
+	}
+	g.def("install_skip_arg", "string", coqStr(skipArg), "InstallPackages skips a package when isInstalledPackage of this is true")
+	test := ""
+	if fn := findFunc("pkg/apk/apk/installed.go", "APK", "isInstalledPackage"); fn != nil && fn.Type.Params != nil && len(fn.Type.Params.List) == 1 && len(fn.Type.Params.List[0].Names) == 1 {
+		param := fn.Type.Params.List[0].Names[0].Name
+		ast.Inspect(fn.Body, func(n ast.Node) bool {
+			rs, ok := n.(*ast.RangeStmt)
+			if !ok || test != "" {
+				return true
+			}
+			v, _ := rs.Value.(*ast.Ident)
+			for _, st := range rs.Body.List {
+				is, ok := st.(*ast.IfStmt)
+				if !ok || len(is.Body.List) != 1 {
+					continue
+				}
+				ret, ok := is.Body.List[0].(*ast.ReturnStmt)
+				if !ok || len(ret.Results) < 1 || exprText(ret.Results[0]) != "true" {
+					continue
+				}
+				c09Alias = map[string]ast.Expr{}
+				side := func(e ast.Expr) string {
+					root := e
+					for {
+						switch y := root.(type) {
+						case *ast.SelectorExpr:
+							root = y.X
+							continue
+						case *ast.CallExpr:
+							root = y.Fun
+							continue
+						}
+						break
+					}
+					if id, ok := root.(*ast.Ident); ok && v != nil && id.Name == v.Name {
+						return "installed."
+					}
+					return "?."
+				}
+				// the parameter itself is the atom "arg"
+				c09Alias[param] = &ast.SelectorExpr{X: ast.NewIdent("?"), Sel: ast.NewIdent("arg")}
+				sideP := func(e ast.Expr) string {
+					if se, ok := e.(*ast.SelectorExpr); ok && se.Sel.Name == "arg" {
+						if id, ok := se.X.(*ast.Ident); ok && id.Name == "?" {
+							return ""
+						}
+					}
+					return side(e)
+				}
+				test = c09Cond(is.Cond, sideP, "pkg/apk/apk/installed.go:isInstalledPackage")
+			}
+			return true
+		})
+	}
+	if test == "" {
+		fail("pkg/apk/apk/installed.go: isInstalledPackage: no `for _, p := range … { if COND { return true, nil } }` over its one parameter")
+		test = "(GEqLit \"\" \"\")"
+	}
+	g.def("is_installed_test", "gexp", test, "isInstalledPackage(arg): true when this holds for some installed package")
+	c09CollectAliases(nil)
 	g.write()
 }
